@@ -12,8 +12,9 @@ EXPLANATION = (
     "substitution and unrolling cannot change the form chosen inside; (union/iterate) an alternation is encoded as the "
     "union of all of its branches in place and a repetition as its body {m,n} with the token's own bounds; (any) "
     "token::any builds one alternation holding every input tree in order, Checked::any and crate::any use it and compile "
-    "that same tree.")
-RULES = "C07.whole (= C01.whole: program vs. compositional reference language on the catalogue), C07.ctx (TABLE), C07.union / C07.iterate (EMIT, = C01.homo), C07.flag (EMIT: a literal's case flag is independent of enclosing branches), C07.any (EFFECT+WHO)"
+    "that same tree.  "
+    "(kinds, shared with C19) `any` rebuilds its input trees through fold_map; decompose / compose keep the variant, every child, the bounds of a repetition and the flags of a literal, so the union is the union of the inputs.")
+RULES = "C07.whole (= C01.whole: program vs. compositional reference language on the catalogue), C07.ctx (TABLE), C07.union / C07.iterate (EMIT, = C01.homo), C07.flag (EMIT: a literal's case flag is independent of enclosing branches), C07.any (EFFECT+WHO), C19.kinds (TABLE: the trees `any` rebuilds keep kinds, children, bounds, flags)"
 
 
 def run(ctx):
@@ -29,6 +30,10 @@ def run(ctx):
     # every catalogue expression, hence wrapping / substitution / unrolling cannot change a language there (= C01.whole)
     from . import exhaust
     exhaust.report_query(F, R, "C07.whole", ctx.tier, "semantics", 15000, 4000)
+    # `any` rebuilds every input tree (fold_map: decompose / compose): the union is only the union of its inputs if the
+    # rebuilt trees are the inputs - kinds, children, bounds and flags kept (C19.kinds)
+    from . import c19
+    c19.rule_kinds(F, R)
 
 
 def rule_any(F, R):
